@@ -548,6 +548,22 @@ func (c *Ctx) xmlSignedMessages() {
 					}
 					return elBytes(r.Element()), nil
 				}},
+				// message contents with characters the writer has to escape in attribute values and text, several of each in one
+				// message (carriage returns, line feeds, tabs, quotes): what is emitted is what was signed
+				{"LogoutResponse/POST/two-CRs-in-InResponseTo", func() ([]byte, error) {
+					h, err := s.MakePostLogoutResponse("id\r\n-x\r\n\t\"<&", "rs")
+					if err != nil {
+						return nil, err
+					}
+					return formMessage(h)
+				}},
+				{"LogoutRequest/POST/CRs-in-name-id", func() ([]byte, error) {
+					h, err := s.MakePostLogoutRequest("al\rice\r\n@example.com\r", "rs")
+					if err != nil {
+						return nil, err
+					}
+					return formMessage(h)
+				}},
 				{"ArtifactResolve", func() ([]byte, error) {
 					r, err := s.MakeArtifactResolveRequest("artifact")
 					if err != nil {
